@@ -361,6 +361,50 @@ def passmanager_harness(ctx):
     ctx.prove("PassManager.run/all-passes-share-the-context-that-is-applied", z3.BoolVal(len(ctxids) == 2 and sorted(ctxids) == sorted(applied)))
 
 
+def passmanager_real_harness(ctx):
+    """PassManager.run with the REAL RewritingContext (E over what the passes register): whatever kinds of registrations the passes make
+    -- only named-block ones (insert_at / SingleBlockScope), only scope-wide ones, both, or a deletion only -- every registered patch lands
+    exactly once, and the context is applied once per module"""
+    from gtirb_rewriting import AllBlocksScope, BlockPosition, Patch, SingleBlockScope, patch_constraints
+    kinds = [ctx.choose(5, "pass%d-registers" % i) for i in range(2)]        # 0 nothing, 1 insert_at, 2 SingleBlockScope, 3 AllBlocksScope, 4 delete_at
+
+    def marker(byte):
+        @patch_constraints()
+        def p(c):
+            return ".byte %d" % byte
+        return Patch.from_function(p)
+    ir, m = create_test_module(gtirb.Module.FileFormat.ELF, gtirb.Module.ISA.X64)
+    _, bi = add_text_section(m, address=0x1000)
+    b0 = add_code_block(bi, b"\x50\x51\x52\x53\xc3")
+    add_function(m, add_symbol(m, "f", b0), b0)
+
+    class P(PS.Pass):
+        def __init__(self, k, byte, idx):
+            self.k, self.byte, self.idx = k, byte, idx
+
+        def begin_module(self, module, functions, rc):
+            if self.k == 1:
+                rc.insert_at(b0, 1, marker(self.byte))
+            elif self.k == 2:
+                rc.register_insert(SingleBlockScope(b0, BlockPosition.ENTRY), marker(self.byte))
+            elif self.k == 3:
+                rc.register_insert(AllBlocksScope(BlockPosition.ENTRY), marker(self.byte))
+            elif self.k == 4:
+                rc.delete_at(b0, 2 + self.idx, 1)         # pass 0 deletes the byte 0x52, pass 1 the byte 0x53 (no overlap with the insertions at 0 / 1)
+    pm = PS.PassManager()
+    for i, k in enumerate(kinds):
+        pm.add(P(k, 0xF1 + i, i))
+    import logging
+    logging.getLogger("gtirb_rewriting").setLevel(logging.CRITICAL)
+    pm.run(ir)
+    data = b"".join(bytes(i.contents) for i in sorted(bi.section.byte_intervals, key=lambda i: i.address))
+    want_counts = {0xF1 + i: (1 if k in (1, 2, 3) else 0) for i, k in enumerate(kinds)}
+    got_counts = {b: data.count(bytes([b])) for b in want_counts}
+    ctx.prove("PassManager.run/every-registered-patch-lands-exactly-once-whatever-the-kinds-of-registration", z3.BoolVal(got_counts == want_counts),
+              note="markers %s expected %s in %s" % (got_counts, want_counts, data.hex()))
+    ctx.prove("PassManager.run/registered-deletions-are-applied", z3.BoolVal((0x52 in data) == (kinds[0] != 4) and (0x53 in data) == (kinds[1] != 4)), note=data.hex())
+
+
 # ------------------------------------------------------------------------------------------------ bounded apply-level
 def bounded(tier, seed):
     def run():
@@ -502,5 +546,6 @@ def jobs(tier="quick", seed=0):
     yield Job("C07/nonterminator_instructions", nonterminator_harness, kind="E", func="gtirb_rewriting.utils:_nonterminator_instructions")
     yield Job("C07/store", store_harness, kind="E", func="gtirb_rewriting.rewriting:_ModificationStore.add/modifications_for_block", expect_cover=("enumerated",))
     yield Job("C07/scopes", scopes_harness, setup=lambda: shims.installed([SC]), kind="E", func="gtirb_rewriting.scopes:*._block_matches/pattern_match", expect_cover=("enumerated",))
+    yield Job("C07/PassManager.run-real-context", passmanager_real_harness, kind="E", func="gtirb_rewriting.passes:PassManager.run")
     yield Job("C07/PassManager.run", passmanager_harness, kind="D", func="gtirb_rewriting.passes:PassManager.run")
     yield Job("C07/apply-bounded", bounded(tier, seed), kind="B", func="gtirb_rewriting.rewriting:RewritingContext.apply")
